@@ -1,5 +1,5 @@
 """C27 — a loadable autosave always survives a crash during autosaving."""
-from ..rules import save
+from ..rules import drivers, save
 
 META = {
     "title": "A loadable autosave always survives a crash during autosaving",
@@ -24,3 +24,5 @@ META = {
 def check(ctx):
     save.crash_safe(ctx)
     ctx.floor("SAVE-window", 1)
+    drivers.progress_dispatch(ctx)
+    drivers.autosave_content(ctx)
